@@ -42,6 +42,12 @@ pow (double b, double y)
 	return v.d ;
 }
 
+/* isfinite () expands to this builtin under goto-cc; CBMC 6.11 has no body for it */
+int
+__builtin_isfinite (double x)
+{	return __CPROVER_isfinited (x) ;
+}
+
 double
 fmod (double x, double y)
 {	VASSERT (y == 1.0, "fmod model: only fmod (x, 1.0) is modelled (harness bound)") ;
